@@ -171,7 +171,9 @@ def run_case(case, seed):
             conv_seen = True
             low = max((O.qabs(T[i, j]) for i in range(n) for j in range(i)), default=0.0)
             if low > 10 * tol * nA:
-                fails.append(fail("converged=>upper_triangular", f"budget {b}: converged=True but max strictly-lower |T_ij| = {low:.3e} (tol {tol:g})", budget=b, lower_max=low, **tags))
+                sub_max = max((O.qabs(T[i, i - 1]) for i in range(1, n)), default=0.0)
+                fails.append(fail("converged=>upper_triangular", f"budget {b}: converged=True but max strictly-lower |T_ij| = {low:.3e} (tol {tol:g}; first sub-diagonal max {sub_max:.3e})", budget=b, lower_max=low,
+                                  subdiag_ok=bool(sub_max <= 10 * tol * nA), **tags))
                 bad = True
             elif is_herm:
                 dg = np.array([T[i, i] for i in range(n)])
